@@ -192,4 +192,13 @@ def compileFull (items : List Item) : Except String (List Elem) :=
   | .error m => .error m
   | .ok es => .ok (processEllipsis es)
 
+/-- `_process_start_flow` (colang/v1_0/runtime/runtime.py): the generated body is parsed like any flow, then
+    `flow["elements"].insert(0, {"_type": "start_flow", "flow_id": flow_id})` — AFTER the offsets were computed -/
+def startFlowElem : Elem := { kind := .simple "start_flow" }
+
+def dynamicFlow (items : List Item) : Except String (List Elem) :=
+  match compileFull items with
+  | .ok es => .ok (startFlowElem :: es)
+  | .error m => .error m
+
 end NemoVerif.V1Compile
